@@ -42,6 +42,38 @@ func runC17(c *core.Ctx) {
 			}
 			continue
 		}
+		if r.Chance(1, 6) {
+			// result types and values that invite shortcuts: zero values, nil pointers,
+			// nil and NON-nil errors as the last result
+			ok := true
+			switch r.Intn(6) {
+			case 0:
+				errs := map[int64]error{}
+				var mu sync.Mutex
+				ok = c17typed(c, r, "error(non-nil)", func(id int64) error {
+					mu.Lock()
+					defer mu.Unlock()
+					if errs[id] == nil {
+						errs[id] = fmt.Errorf("action of caller %d failed", id)
+					}
+					return errs[id]
+				})
+			case 1:
+				ok = c17typed(c, r, "error(nil)", func(id int64) error { return nil })
+			case 2:
+				ok = c17typed(c, r, "*int(nil)", func(id int64) *int { return nil })
+			case 3:
+				ok = c17typed(c, r, "int(zero)", func(id int64) int { return 0 })
+			case 4:
+				ok = c17typed(c, r, "string(empty)", func(id int64) string { return "" })
+			case 5:
+				ok = c17typed(c, r, "bool", func(id int64) bool { return id%2 == 0 })
+			}
+			if !ok {
+				return
+			}
+			continue
+		}
 		arity := 1 + r.Intn(3)
 		ng := r.Range(2, 32)
 		late := r.Intn(4)
@@ -172,29 +204,56 @@ func c17abnormal(c *core.Ctx, r *core.Rand) bool {
 			o3.Do(f)
 		}
 	}
+	// In half of the rounds the other callers are already inside Do (blocked behind the
+	// running action) when it exits abnormally: they must come back - without running
+	// their own functions - and not wait forever for a lock that is never released.
+	ng := r.Range(1, 8)
+	concurrent := r.Bool()
+	var arrived atomic.Int64
+	var running = make(chan struct{})
 	first := make(chan struct{})
 	go func() {
 		defer close(first)
 		defer func() { recover() }()
 		do(func() (int64, string, [3]int64) {
 			inv.Add(1)
+			close(running)
+			if concurrent {
+				for t0 := time.Now(); arrived.Load() < int64(ng) && time.Since(t0) < 20*time.Millisecond; {
+					runtime.Gosched()
+				}
+				for i := 0; i < 20; i++ {
+					runtime.Gosched() // let them get from the counter into Do
+				}
+				time.Sleep(50 * time.Microsecond)
+			}
 			if goexit {
 				runtime.Goexit()
 			}
 			panic("first action panics")
 		})
 	}()
-	<-first
-	ng := r.Range(1, 8)
+	if concurrent {
+		<-running
+	} else {
+		<-first
+	}
 	var wg sync.WaitGroup
 	for g := 0; g < ng; g++ {
 		wg.Add(1)
 		go func() {
 			defer wg.Done()
+			arrived.Add(1)
 			do(func() (int64, string, [3]int64) { inv.Add(1); return 1, "x", [3]int64{1, 2, 3} })
 		}()
 	}
-	wg.Wait()
+	if !joinOrDeadlock(c, &wg, fmt.Sprintf("Once%d", arity), "Do calls made while (or after) the first action exits abnormally", map[string]any{"arity": arity, "goexit": goexit, "callers_inside_Do_during_the_exit": concurrent}) {
+		return false
+	}
+	<-first
+	if concurrent {
+		c.Count("rounds_abnormal_exit_with_callers_waiting_inside_Do", 1)
+	}
 	do(func() (int64, string, [3]int64) { inv.Add(1); return 2, "y", [3]int64{} })
 	c.Count("rounds_abnormal_first_action", 1)
 	if n := inv.Load(); n != 1 {
@@ -203,6 +262,74 @@ func c17abnormal(c *core.Ctx, r *core.Rand) bool {
 			how = "called runtime.Goexit"
 		}
 		c.Violate(fmt.Sprintf("Once%d:invocations-after-abnormal-exit", arity), fmt.Sprintf("the first action %s; afterwards %d further functions were invoked by later Do calls (exactly one function may ever be invoked)", how, n-1), map[string]any{"arity": arity, "goexit": goexit, "later_callers": ng + 1})
+		return false
+	}
+	return true
+}
+
+// c17typed: one round with the last result of type T (values chosen by val), on
+// Once1[T], Once2[int64,T] or Once3[int64,string,T]; concurrent callers, then late ones.
+func c17typed[T comparable](c *core.Ctx, r *core.Rand, tname string, val func(id int64) T) bool {
+	arity := 1 + r.Intn(3)
+	ng := r.Range(2, 8)
+	late := 1 + r.Intn(3)
+	var o1 sync2.Once1[T]
+	var o2 sync2.Once2[int64, T]
+	var o3 sync2.Once3[int64, string, T]
+	var inv, winner atomic.Int64
+	var wrong atomic.Value
+	call := func(id int64) {
+		var a int64
+		var b string
+		var t T
+		f := func() { inv.Add(1); winner.Store(id + 1); runtime.Gosched() }
+		switch arity {
+		case 1:
+			t = o1.Do(func() T { f(); return val(id) })
+		case 2:
+			a, t = o2.Do(func() (int64, T) { f(); return id + 100, val(id) })
+		case 3:
+			a, b, t = o3.Do(func() (int64, string, T) { f(); return id + 100, fmt.Sprint("r", id), val(id) })
+		}
+		w := winner.Load() - 1
+		ok := t == val(w)
+		if arity >= 2 {
+			ok = ok && a == w+100
+		}
+		if arity >= 3 {
+			ok = ok && b == fmt.Sprint("r", w)
+		}
+		if !ok {
+			wrong.Store(fmt.Sprintf("caller %d got (%d,%q,%v); the action that ran (caller %d) returned (%d,%q,%v)", id, a, b, t, w, w+100, fmt.Sprint("r", w), val(w)))
+		}
+	}
+	var wg sync.WaitGroup
+	start := make(chan struct{})
+	for g := 0; g < ng; g++ {
+		wg.Add(1)
+		go func(id int64) {
+			defer wg.Done()
+			<-start
+			call(id)
+		}(int64(g))
+	}
+	close(start)
+	extra := map[string]any{"arity": arity, "last_result": tname, "goroutines": ng, "late_callers": late}
+	if !joinOrDeadlock(c, &wg, fmt.Sprintf("Once%d", arity), "a round of concurrent Do calls", extra) {
+		return false
+	}
+	for l := 0; l < late; l++ {
+		call(int64(ng + l))
+	}
+	c.Count("rounds", 1)
+	c.Count("rounds_last_result_"+tname, 1)
+	c.Count("do_calls", int64(ng+late))
+	if n := inv.Load(); n != 1 {
+		c.Violate(fmt.Sprintf("Once%d:invocations[last result %s]", arity, tname), fmt.Sprintf("%d of the supplied functions were invoked (callers: %d concurrent + %d late); exactly one must be, whatever it returns", n, ng, late), extra)
+		return false
+	}
+	if m, _ := wrong.Load().(string); m != "" {
+		c.Violate(fmt.Sprintf("Once%d:results[last result %s]", arity, tname), "a Do call returned values other than those of the one invocation: "+m, extra)
 		return false
 	}
 	return true
